@@ -214,9 +214,11 @@ def report_property(ctx, text, indent, entry, res):
         ctx.fail(seen[0], "print o parse is not the identity on the real code: " + res[0], {})
         return
 
+    exact = res[0].startswith("member-description-dropped")
+
     def bad(x):
         r = oracle(x, indent, entry)
-        return r is not None and r[0].split(":")[0] == cls
+        return r is not None and (r[0] == res[0] if exact else r[0].split(":")[0] == cls)
     small = shrink_text(text, bad)
     r = oracle(small, indent, entry) or res
     pr = real_parse(small, entry)
